@@ -373,10 +373,10 @@ class FitRange2D:
         return self.row, self.col
 
     def check(self, rows: int, cols: int):
-        if not self.row.stop <= rows:
+        if self.row.stop is not None and not self.row.stop <= rows:
             raise ValueError("Value of target fit range is wrong")
 
-        if not self.col.stop <= cols:
+        if self.col.stop is not None and not self.col.stop <= cols:
             raise ValueError("Value of target fit range is wrong")
 
 
@@ -437,16 +437,16 @@ class FitRange3D:
         return self.time, self.row, self.col
 
     def check(self, rows: int, cols: int, readout_times: int | None = None):
-        if not self.row.stop <= rows:
+        if self.row.stop is not None and not self.row.stop <= rows:
             raise ValueError("Value of target fit range is wrong")
 
-        if not self.col.stop <= cols:
+        if self.col.stop is not None and not self.col.stop <= cols:
             raise ValueError("Value of target fit range is wrong")
 
         if readout_times is None:
             raise ValueError("Target data is not a 3 dimensional array")
 
-        if not self.time.stop <= readout_times:
+        if self.time.stop is not None and not self.time.stop <= readout_times:
             raise ValueError("Value of target fit range is wrong")
 
 
@@ -466,27 +466,40 @@ def to_fit_range(
         raise ValueError("Fitting range should have 4 or 6 values")
 
 
+def _get_slice_length(data: slice, size: int) -> int:
+    """Get the number of elements selected by a slice in a dimension with 'size' elements."""
+    return len(range(*data.indices(size)))
+
+
 def _check_out_fit_ranges(
     target_fit_range: FitRange2D | FitRange3D,
     out_fit_range: FitRange2D | FitRange3D,
+    rows: int,
+    cols: int,
+    readout_times: int | None = None,
 ):
     if (
         isinstance(target_fit_range, FitRange3D)
         and isinstance(out_fit_range, FitRange3D)
-        and target_fit_range.time.stop != out_fit_range.time.stop
+        and readout_times is not None
+        and _get_slice_length(target_fit_range.time, size=readout_times)
+        != _get_slice_length(out_fit_range.time, size=readout_times)
     ):
         raise ValueError(
             "Fitting ranges have different lengths in dimension 'readout time'"
         )
 
-    if target_fit_range.row.stop != out_fit_range.row.stop:
+    if _get_slice_length(target_fit_range.row, size=rows) != _get_slice_length(
+        out_fit_range.row, size=rows
+    ):
         raise ValueError("Fitting ranges have different lengths in dimension 'y'")
 
-    if target_fit_range.col.stop != out_fit_range.col.stop:
+    if _get_slice_length(target_fit_range.col, size=cols) != _get_slice_length(
+        out_fit_range.col, size=cols
+    ):
         raise ValueError("Fitting ranges have different lengths in dimension 'x'")
 
 
-# TODO: Refactor and add more unit tests. See #328
 def check_fit_ranges(
     target_fit_range: FitRange2D | FitRange3D | None,
     out_fit_range: FitRange2D | FitRange3D | None,
@@ -523,7 +536,11 @@ def check_fit_ranges(
 
     if out_fit_range:
         _check_out_fit_ranges(
-            target_fit_range=target_fit_range, out_fit_range=out_fit_range
+            target_fit_range=target_fit_range,
+            out_fit_range=out_fit_range,
+            rows=rows,
+            cols=cols,
+            readout_times=readout_times,
         )
 
     if isinstance(target_fit_range, FitRange2D):
